@@ -22,29 +22,30 @@ Notation Coh := (Coh cfg).
 Definition gpv_coh (a : aux) : Prop := forall k v, aget None k (c_gpv a) = Some v -> aget 0 k (s_gpv a) = v.
 
 (* a step that leaves the aux part alone except that it may raise votes_changed and update gas-per-vote coherently *)
-Record AuxStep (a a' : aux) : Prop := mkAS {
-  as_height : height a' = height a;
-  as_committee : committee a' = committee a;
-  as_ne : ne_committee a' = ne_committee a;
-  as_sgpb : s_gpb a' = s_gpb a;
-  as_cgpb : c_gpb a' = c_gpb a;
-  as_sreg : s_regprice a' = s_regprice a;
-  as_creg : c_regprice a' = c_regprice a;
-  as_sblk : s_blocked a' = s_blocked a;
-  as_cblk : c_blocked a' = c_blocked a;
-  as_pst : p_store a' = p_store a;
-  as_pca : p_cache a' = p_cache a;
-  as_vc : votes_changed a = true -> votes_changed a' = true;
-  as_gpv : gpv_coh a -> gpv_coh a'
+Record AuxStep (st st' : state) : Prop := mkAS {
+  as_height : height (A st') = height (A st);
+  as_committee : committee (A st') = committee (A st);
+  as_ne : ne_committee (A st') = ne_committee (A st);
+  as_sgpb : s_gpb (A st') = s_gpb (A st);
+  as_cgpb : c_gpb (A st') = c_gpb (A st);
+  as_sreg : s_regprice (A st') = s_regprice (A st);
+  as_creg : c_regprice (A st') = c_regprice (A st);
+  as_sblk : s_blocked (A st') = s_blocked (A st);
+  as_cblk : c_blocked (A st') = c_blocked (A st);
+  as_pst : p_store (A st') = p_store (A st);
+  as_pca : p_cache (A st') = p_cache (A st);
+  as_vc : votes_changed (A st) = true -> votes_changed (A st') = true;
+  as_gpv : gpv_coh (A st) -> gpv_coh (A st');
+  as_x : X st' = X st
 }.
 
 Definition same_inputs (st st' : state) : Prop :=
   l_cands (L st') = l_cands (L st) /\ l_voters (L st') = l_voters (L st) /\ l_neo_total (L st') = l_neo_total (L st).
 
 Definition GStep (st st' : state) : Prop :=
-  AuxStep (A st) (A st') /\ (votes_changed (A st') = true \/ same_inputs st st').
+  AuxStep st st' /\ (votes_changed (A st') = true \/ same_inputs st st').
 
-Lemma AuxStep_refl a : AuxStep a a.
+Lemma AuxStep_refl st : AuxStep st st.
 Proof. constructor; auto. Qed.
 
 Lemma AuxStep_trans a b c : AuxStep a b -> AuxStep b c -> AuxStep a c.
@@ -62,12 +63,12 @@ Proof.
 Qed.
 
 (* the aux part untouched, the inputs of the committee computation untouched *)
-Lemma GStep_same st st' : A st' = A st -> same_inputs st st' -> GStep st st'.
-Proof. intros E H. split; [rewrite E; apply AuxStep_refl|right; exact H]. Qed.
+Lemma GStep_same st st' : A st' = A st -> X st' = X st -> same_inputs st st' -> GStep st st'.
+Proof. intros E Ex H. split; [constructor; rewrite ?E; auto|right; exact H]. Qed.
 
 Lemma CohTx_GStep st st' : GStep st st' -> CohTx st -> CohTx st'.
 Proof.
-  intros [X Y] [c1 c2 c3 c4 c5 c6]. destruct X. constructor; try congruence.
+  intros [X Y] [c1 c2 c3 c4 c5 c6 c7 c8]. destruct X. constructor; try congruence.
   - apply as_gpv0. exact c5.
   - intros Hv. destruct Y as [Y|[i1 [i2 i3]]]; [congruence|].
     assert (votes_changed (A st) = false) by (destruct (votes_changed (A st)); [rewrite as_vc0 in Hv; auto|reflexivity]).
@@ -80,18 +81,18 @@ Proof.
   unfold gas_inc_balance. destruct (amt =? 0).
   - destruct chk as [c|]; [destruct (gas_bal st a <? c)|]; intros H; inv H; apply GStep_refl.
   - destruct ((amt <? 0) && (gas_bal st a <? - amt)); intros H; inv H.
-    apply GStep_same; [reflexivity|repeat split].
+    apply GStep_same; [reflexivity|reflexivity|repeat split].
 Qed.
 
 Lemma gas_add_tokens_g st a amt st' : gas_add_tokens st a amt = Some st' -> GStep st st'.
 Proof.
   unfold gas_add_tokens. destruct (amt =? 0); [intros H; inv H; apply GStep_refl|].
   destruct (gas_inc_balance st a amt None) as [st1|] eqn:E; [|discriminate]. intros H. inv H.
-  eapply GStep_trans; [apply (gas_inc_balance_g _ _ _ _ _ E)|]. apply GStep_same; [reflexivity|repeat split].
+  eapply GStep_trans; [apply (gas_inc_balance_g _ _ _ _ _ E)|]. apply GStep_same; [reflexivity|reflexivity|repeat split].
 Qed.
 
 Lemma emit_g st e : GStep st (emit st e).
-Proof. apply GStep_same; [reflexivity|repeat split]. Qed.
+Proof. apply GStep_same; [reflexivity|reflexivity|repeat split]. Qed.
 
 Lemma gas_mint_g st a amt call st' : gas_mint cfg st a amt call = Some st' -> GStep st st'.
 Proof.
@@ -112,27 +113,34 @@ Lemma mint_opt_g st a d call st' : mint_opt cfg st a d call = Some st' -> GStep 
 Proof. unfold mint_opt. destruct d; [apply gas_mint_g|intros H; inv H; apply GStep_refl]. Qed.
 
 (* ---------- candidates ---------- *)
-Lemma drop_gpv_aux st k : AuxStep (A st) (A (drop_gpv cfg st k)).
+Lemma AuxStep_sameAX s s' : A s' = A s -> X s' = X s -> AuxStep s s'.
+Proof. intros E Ex. constructor; rewrite ?E; auto. Qed.
+
+Lemma AuxStep_vc st s' : A s' = set_votes_changed (A st) true -> X s' = X st -> AuxStep st s'.
+Proof. intros E Ex. constructor; rewrite ?E; simpl; auto. Qed.
+
+Lemma drop_gpv_aux st k : AuxStep st (drop_gpv cfg st k).
 Proof.
   unfold drop_gpv. rewrite FIX23. constructor; simpl; auto.
   unfold gpv_coh; simpl. intros H k0 v. rewrite !aget_aset. destruct (N.eqb k0 k); [discriminate|apply H].
 Qed.
 
-Lemma set_vc_aux a : AuxStep a (set_votes_changed a true).
+Lemma set_vc_aux st : AuxStep st (withA st (set_votes_changed (A st) true)).
 Proof. constructor; simpl; auto. Qed.
 
 Lemma modify_account_votes_g st v value is_new st1 :
   modify_account_votes cfg st v value is_new = Some st1 ->
-  AuxStep (A st) (A st1) /\ votes_changed (A st1) = true.
+  AuxStep st st1 /\ votes_changed (A st1) = true.
 Proof.
-  unfold modify_account_votes. destruct v as [k|]; [|intros H; inv H; split; [apply set_vc_aux|reflexivity]].
+  unfold modify_account_votes. destruct v as [k|]; [|intros H; inv H; split; [(apply AuxStep_vc; reflexivity)|reflexivity]].
   destruct (negb (cpresent (cand_of (withA st (set_votes_changed (A st) true)) k))); [discriminate|].
   match goal with |- context [if ?c then _ else _] => destruct c end; intros H; inv H.
   - split.
     + eapply AuxStep_trans; [apply set_vc_aux|].
-      apply (drop_gpv_aux (cand_put (withA st (set_votes_changed (A st) true)) k cand0) k).
+      eapply AuxStep_trans; [|apply (drop_gpv_aux (cand_put (withA st (set_votes_changed (A st) true)) k cand0) k)].
+      apply AuxStep_sameAX; reflexivity.
     + unfold drop_gpv. reflexivity.
-  - split; [apply set_vc_aux|reflexivity].
+  - split; [(apply AuxStep_vc; reflexivity)|reflexivity].
 Qed.
 
 Lemma neo_inc_balance_g st a acc amount check st' dist :
@@ -142,11 +150,11 @@ Proof.
   match goal with |- context [if ?c then None else _] => destruct c; [discriminate|] end.
   destruct (distribute_gas st acc) as [acc1 d].
   destruct (amount =? 0).
-  - intros H. inv H. apply GStep_same; [reflexivity|repeat split].
+  - intros H. inv H. apply GStep_same; [reflexivity|reflexivity|repeat split].
   - destruct (modify_account_votes cfg st (nvote acc1) amount false) as [st1|] eqn:E; [|discriminate].
-    destruct (modify_account_votes_g _ _ _ _ _ E) as [X Hv].
+    destruct (modify_account_votes_g _ _ _ _ _ E) as [XS Hv].
     intros H. inv H. split; [|left].
-    + destruct (nvote acc1); exact X.
+    + eapply AuxStep_trans; [exact XS|]. destruct (nvote acc1); apply AuxStep_sameAX; reflexivity.
     + destruct (nvote acc1); exact Hv.
 Qed.
 
@@ -188,8 +196,8 @@ Proof.
     assert (Hc : mkCand true true (cvotes c) = c) by (destruct c; simpl in *; congruence).
     rewrite Hc. unfold cand_put.
     rewrite (aset_same cand0 k c (l_cands (L st))); [|reflexivity|intros X; rewrite X in Ep; discriminate].
-    apply GStep_same; [reflexivity|repeat split].
-  - split; [apply set_vc_aux|left; reflexivity].
+    apply GStep_same; [reflexivity|reflexivity|repeat split].
+  - split; [(apply AuxStep_vc; reflexivity)|left; reflexivity].
 Qed.
 
 Lemma unregister_candidate_g st w k st' r : unregister_candidate cfg st w k = Some (st', r) -> GStep st st'.
@@ -199,8 +207,9 @@ Proof.
   destruct (cvotes (cand_of st k) =? 0); intros H; inv H.
   - split; [|left; unfold drop_gpv; reflexivity].
     eapply AuxStep_trans; [apply set_vc_aux|].
-    apply (drop_gpv_aux (cand_put (withA st (set_votes_changed (A st) true)) k cand0) k).
-  - split; [apply set_vc_aux|left; reflexivity].
+    eapply AuxStep_trans; [|apply (drop_gpv_aux (cand_put (withA st (set_votes_changed (A st) true)) k cand0) k)].
+    apply AuxStep_sameAX; reflexivity.
+  - split; [(apply AuxStep_vc; reflexivity)|left; reflexivity].
 Qed.
 
 (* vote: the error returns after a partial write are dead on a well-formed ledger *)
@@ -216,8 +225,9 @@ Proof.
               | Some _, None => modify_voter_turnout st (- nbal acc)
               | _, _ => st
               end).
-  assert (HA1 : A st1 = A st /\ l_cands (L st1) = l_cands (L st)) by (unfold st1; destruct (nvote acc), k; split; reflexivity).
-  destruct HA1 as [HA1 Hc1].
+  assert (HA1 : (A st1 = A st /\ X st1 = X st) /\ l_cands (L st1) = l_cands (L st))
+    by (unfold st1; destruct (nvote acc), k; repeat split; reflexivity).
+  destruct HA1 as [[HA1 HX1] Hc1].
   destruct (distribute_gas st1 acc) as [acc1 new_gas] eqn:Ed.
   destruct (distribute_gas_spec _ _ _ _ Ed) as [Hb1 Hv1].
   destruct (modify_account_votes cfg st1 (nvote acc1) (- nbal acc1) false) as [st2|] eqn:Em1.
@@ -235,7 +245,9 @@ Proof.
   match goal with |- context [mint_opt cfg ?s a new_gas true] => destruct (mint_opt cfg s a new_gas true) as [st5|] eqn:Em; [|discriminate] end.
   intros H. inv H.
   eapply GStep_trans; [|apply (mint_opt_g _ _ _ _ _ Em)].
-  split; [|left; exact V2]. simpl. rewrite <- HA1. eapply AuxStep_trans; eassumption.
+  split; [|left; exact V2].
+  eapply AuxStep_trans; [apply (AuxStep_sameAX st st1 HA1 HX1)|].
+  eapply AuxStep_trans; [exact X1|]. eapply AuxStep_trans; [exact X2|]. apply AuxStep_sameAX; reflexivity.
 Qed.
 
 Lemma vote_g st w a k st' r : WF (L st) -> vote cfg st w a k = Some (st', r) -> GStep st st'.
@@ -247,7 +259,7 @@ Qed.
 
 (* ---------- GAS.transfer, Notary ---------- *)
 Lemma dep_put_g st a d : GStep st (dep_put st a d).
-Proof. apply GStep_same; [reflexivity|repeat split]. Qed.
+Proof. apply GStep_same; [reflexivity|reflexivity|repeat split]. Qed.
 
 Lemma notary_on_payment_g st sender from amount d st' : notary_on_payment st sender from amount d = Some st' -> GStep st st'.
 Proof.
@@ -256,8 +268,8 @@ Proof.
   intros H. inv H. apply dep_put_g.
 Qed.
 
-Lemma gas_transfer_core_g st sender from to amount d st' r :
-  gas_transfer_core cfg st sender from to amount d = Some (st', r) -> GStep st st'.
+Lemma gas_transfer_core_g st sender wit from to amount d st' r :
+  gas_transfer_core cfg st sender wit from to amount d = Some (st', r) -> GStep st st'.
 Proof.
   unfold gas_transfer_core, ok.
   set (empty := N.eqb from to || (amount =? 0)).
@@ -279,21 +291,21 @@ Proof.
     intros H. inv H. eapply GStep_trans; [exact G3|]. eapply GStep_trans; [apply register_internal_g|apply (gas_burn_g _ _ _ _ E4)].
 Qed.
 
-Lemma gas_transfer_g st w sender from to amount d st' r :
-  gas_transfer cfg st w sender from to amount d = Some (st', r) -> GStep st st'.
+Lemma gas_transfer_g st w sender wit from to amount d st' r :
+  gas_transfer cfg st w sender wit from to amount d = Some (st', r) -> GStep st st'.
 Proof.
   unfold gas_transfer, ok. destruct (amount <? 0); [discriminate|].
   destruct (negb w); [intros H; inv H; apply GStep_refl|apply gas_transfer_core_g].
 Qed.
 
-Lemma notary_withdraw_g st w sender from to0 st' r :
-  notary_withdraw cfg st w sender from to0 = Some (st', r) -> GStep st st'.
+Lemma notary_withdraw_g st w sender wit from to0 st' r :
+  notary_withdraw cfg st w sender wit from to0 = Some (st', r) -> GStep st st'.
 Proof.
   unfold notary_withdraw, ok.
   repeat match goal with |- context [if ?c then Some (st, Some false) else _] => destruct c; [intros H; inv H; apply GStep_refl|] end.
-  match goal with |- context [gas_transfer_core cfg ?s ?x ?f ?t ?a ?d] =>
-    destruct (gas_transfer_core cfg s x f t a d) as [[st2 [[|]|]]|] eqn:E; try discriminate end.
-  intros H. inv H. eapply GStep_trans; [apply dep_put_g|apply (gas_transfer_core_g _ _ _ _ _ _ _ _ E)].
+  match goal with |- context [gas_transfer_core cfg ?s ?x ?y ?f ?t ?a ?d] =>
+    destruct (gas_transfer_core cfg s x y f t a d) as [[st2 [[|]|]]|] eqn:E; try discriminate end.
+  intros H. inv H. eapply GStep_trans; [apply dep_put_g|apply (gas_transfer_core_g _ _ _ _ _ _ _ _ _ E)].
 Qed.
 
 Lemma notary_lock_g st w a till st' r : notary_lock st w a till = Some (st', r) -> GStep st st'.
@@ -337,7 +349,7 @@ Proof.
     { destruct (hf_faun cfg); [apply (vote_internal_g _ _ _ _ _ Hwf E)|inv E; apply GStep_refl]. }
     intros H. inv H. eapply TxStep_trans; [apply (TxStep_of_G _ _ G1)|].
     unfold mark_dirty. rewrite FIX7. split; [|split; [|split]]; simpl; auto.
-    intros [c1 c2 c3 c4 c5 c6]. constructor; simpl; auto; [congruence|discriminate]. }
+    intros [c1 c2 c3 c4 c5 c6 c7 c8]. constructor; simpl; auto; [congruence|discriminate]. }
   destruct (kind_of cfg a); try discriminate; exact Hgo.
 Qed.
 
@@ -345,28 +357,67 @@ Lemma unblock_account_t st a st' r : unblock_account cfg st a = Some (st', r) ->
 Proof.
   unfold unblock_account, ok. destruct (negb (is_blocked st a)); intros H; inv H; [apply TxStep_refl|].
   unfold mark_dirty. rewrite FIX7. split; [|split; [|split]]; simpl; auto.
-  intros [c1 c2 c3 c4 c5 c6]. constructor; simpl; auto; [congruence|discriminate].
+  intros [c1 c2 c3 c4 c5 c6 c7 c8]. constructor; simpl; auto; [congruence|discriminate].
 Qed.
 
 Lemma policy_set_t st key v st' r : policy_set cfg st key v = Some (st', r) -> TxStep st st'.
 Proof.
   unfold policy_set. destruct (negb (policy_in_range cfg key v)); intros H; inv H.
-  split; [|split; [|split]]; simpl; auto. intros [c1 c2 c3 c4 c5 c6]. constructor; simpl; auto; try congruence.
+  split; [|split; [|split]]; simpl; auto. intros [c1 c2 c3 c4 c5 c6 c7 c8]. constructor; simpl; auto; try congruence.
   all: try (intros Hv; rewrite <- (c6 Hv); apply compute_committee_ext; reflexivity).
 Qed.
 
 Lemma whitelist_set_t st a fee st' r : whitelist_set cfg st a fee = Some (st', r) -> TxStep st st'.
 Proof.
-  unfold whitelist_set. rewrite FIX46, andb_false_r. destruct (fee <? 0); intros H; inv H.
-  split; [|split; [|split]]; simpl; auto. intros [c1 c2 c3 c4 c5 c6]. constructor; simpl; auto; try congruence.
+  unfold whitelist_set. rewrite FIX46, andb_false_r. destruct (fee <? 0); [discriminate|].
+  destruct (negb (mc_present (contract_of st a))); intros H; inv H.
+  split; [|split; [|split]]; simpl; auto. intros [c1 c2 c3 c4 c5 c6 c7 c8]. constructor; simpl; auto; try congruence.
   all: try (intros Hv; rewrite <- (c6 Hv); apply compute_committee_ext; reflexivity).
 Qed.
 
 Lemma whitelist_remove_t st a st' r : whitelist_remove st a = Some (st', r) -> TxStep st st'.
 Proof.
-  unfold whitelist_remove. destruct (_ =? 0); intros H; inv H.
-  split; [|split; [|split]]; simpl; auto. intros [c1 c2 c3 c4 c5 c6]. constructor; simpl; auto; try congruence.
+  unfold whitelist_remove. destruct (negb (mc_present (contract_of st a))); [discriminate|].
+  destruct (_ =? 0); intros H; inv H.
+  split; [|split; [|split]]; simpl; auto. intros [c1 c2 c3 c4 c5 c6 c7 c8]. constructor; simpl; auto; try congruence.
   all: try (intros Hv; rewrite <- (c6 Hv); apply compute_committee_ext; reflexivity).
+Qed.
+
+Lemma designate_as_role_t st role ks st' r : designate_as_role st role ks = Some (st', r) -> TxStep st st'.
+Proof.
+  unfold designate_as_role.
+  repeat match goal with |- context [if ?c then None else _] => destruct c; [discriminate|] end.
+  intros H; inv H. split; [|split; [|split]]; simpl; auto.
+  intros [c1 c2 c3 c4 c5 c6 c7 c8]. constructor; simpl; auto.
+  all: try (intros Hv; rewrite <- (c6 Hv); apply compute_committee_ext; reflexivity).
+  all: try (intros r0; rewrite !aget_aset; destruct (N.eqb r0 role); [reflexivity|apply c7]).
+Qed.
+
+Lemma mg_put_coh st h c ids next : CohTx st -> CohTx (mg_put st h c ids next).
+Proof.
+  intros [c1 c2 c3 c4 c5 c6 c7 c8]. constructor; simpl; auto.
+  all: try (intros Hv; rewrite <- (c6 Hv); apply compute_committee_ext; reflexivity).
+  all: try (intros h0; rewrite !aget_aset; destruct (N.eqb h0 h); [reflexivity|apply c8]).
+Qed.
+
+Lemma mg_deploy_t st a st' r : mg_deploy st a = Some (st', r) -> TxStep st st'.
+Proof.
+  unfold mg_deploy.
+  repeat match goal with |- context [if ?c then None else _] => destruct c; [discriminate|] end.
+  intros H; inv H. split; [|split; [|split]]; simpl; auto. apply mg_put_coh.
+Qed.
+
+Lemma whitelist_clean_coh st a : CohTx st -> CohTx (whitelist_clean st a).
+Proof.
+  intros [c1 c2 c3 c4 c5 c6 c7 c8]. constructor; simpl; auto; try congruence.
+  all: try (intros Hv; rewrite <- (c6 Hv); apply compute_committee_ext; reflexivity).
+Qed.
+
+Lemma mg_update_t st a st' r : mg_update st a = Some (st', r) -> TxStep st st'.
+Proof.
+  unfold mg_update.
+  repeat match goal with |- context [if ?c then None else _] => destruct c; [discriminate|] end.
+  intros H; inv H. split; [|split; [|split]]; simpl; auto. intros C. apply mg_put_coh, whitelist_clean_coh, C.
 Qed.
 
 Lemma dedup_put idx v c : gpb_store_put idx v (dedup c) = dedup ((idx, v) :: c).
@@ -375,7 +426,7 @@ Proof. simpl. unfold gpb_store_put. destruct (dedup c) as [|[j w] t]; reflexivit
 Lemma set_gas_per_block_t st v st' r : set_gas_per_block st v = Some (st', r) -> TxStep st st'.
 Proof.
   unfold set_gas_per_block. destruct ((v <? 0) || (v >? 10 * 100000000)); intros H; inv H.
-  split; [|split; [|split]]; simpl; auto. intros [c1 c2 c3 c4 c5 c6]. constructor; simpl; auto.
+  split; [|split; [|split]]; simpl; auto. intros [c1 c2 c3 c4 c5 c6 c7 c8]. constructor; simpl; auto.
   all: try (rewrite c4; apply dedup_put).
   all: try (intros Hv; rewrite <- (c6 Hv); apply compute_committee_ext; reflexivity).
 Qed.
@@ -383,7 +434,7 @@ Qed.
 Lemma set_register_price_t st v st' r : set_register_price st v = Some (st', r) -> TxStep st st'.
 Proof.
   unfold set_register_price. destruct (v <=? 0); intros H; inv H.
-  split; [|split; [|split]]; simpl; auto. intros [c1 c2 c3 c4 c5 c6]. constructor; simpl; auto.
+  split; [|split; [|split]]; simpl; auto. intros [c1 c2 c3 c4 c5 c6 c7 c8]. constructor; simpl; auto.
   all: try (intros Hv; rewrite <- (c6 Hv); apply compute_committee_ext; reflexivity).
 Qed.
 
@@ -393,23 +444,39 @@ Proof.
   intros H. inv H. apply register_internal_g.
 Qed.
 
+Lemma mg_destroy_t st a st' r : WF (L st) -> mg_destroy cfg st a = Some (st', r) -> TxStep st st'.
+Proof.
+  intros Hwf. unfold mg_destroy.
+  destruct (negb (mc_present (contract_of st a))); [discriminate|].
+  destruct (block_account cfg st (caddr a)) as [[st1 r1]|] eqn:E; [|discriminate].
+  pose proof (block_account_t _ _ _ _ Hwf E) as [h1 [m1 [n1 T1]]].
+  intros H; inv H. split; [|split; [|split]]; simpl; auto. intros C. apply mg_put_coh, whitelist_clean_coh, T1, C.
+Qed.
+
 Lemma run_op_t st t st' r : WF (L st) -> run_op cfg st t = Some (st', r) -> TxStep st st'.
 Proof.
   intros Hwf. unfold run_op. destruct (t_op t).
   - intros H. apply TxStep_of_G, (neo_transfer_g _ _ _ _ _ _ _ H).
-  - intros H. apply TxStep_of_G, (gas_transfer_g _ _ _ _ _ _ _ _ _ H).
+  - intros H. apply TxStep_of_G, (gas_transfer_g _ _ _ _ _ _ _ _ _ _ H).
   - intros H. apply TxStep_of_G, (vote_g _ _ _ _ _ _ Hwf H).
   - intros H. apply TxStep_of_G, (register_candidate_g _ _ _ _ _ H).
   - intros H. apply TxStep_of_G, (unregister_candidate_g _ _ _ _ _ H).
-  - intros H. apply TxStep_of_G, (notary_withdraw_g _ _ _ _ _ _ _ H).
+  - intros H. apply TxStep_of_G, (notary_withdraw_g _ _ _ _ _ _ _ _ H).
   - intros H. apply TxStep_of_G, (notary_lock_g _ _ _ _ _ _ H).
   - destruct (committee_witness st t); [apply set_gas_per_block_t|discriminate].
   - destruct (committee_witness st t); [apply set_register_price_t|discriminate].
   - destruct (committee_witness st t); [apply block_account_t; exact Hwf|discriminate].
   - destruct (committee_witness st t); [apply unblock_account_t|discriminate].
   - destruct (committee_witness st t); [apply policy_set_t|discriminate].
-  - destruct (committee_witness st t && i_halt t); [|discriminate].
+  - destruct (committee_witness st t && hf_faun cfg); [|discriminate].
     destruct fee; [apply whitelist_set_t|apply whitelist_remove_t].
+  - destruct (committee_witness st t); [apply designate_as_role_t|discriminate].
+  - apply mg_deploy_t.
+  - apply mg_update_t.
+  - apply mg_destroy_t; exact Hwf.
+  - destruct (i_halt t); intros H; inv H. split; [|split; [|split]]; simpl; auto.
+    intros [c1 c2 c3 c4 c5 c6 c7 c8]. constructor; simpl; auto.
+    all: try (intros Hv; rewrite <- (c6 Hv); apply compute_committee_ext; reflexivity).
   - discriminate.
   - destruct (i_halt t); intros H; inv H. apply TxStep_refl.
 Qed.
@@ -438,6 +505,38 @@ Proof.
   intros H. eapply GStep_trans; [apply (burn_fees_g _ _ _ E)|apply (gas_mint_g _ _ _ _ _ H)].
 Qed.
 
+Lemma charge_deposits_g txs : forall st st', charge_deposits cfg st txs = Some st' -> GStep st st'.
+Proof.
+  induction txs as [|t r IH]; intros st st'; simpl; [intros H; inv H; apply GStep_refl|].
+  destruct (t_na t) as [[nk p]|]; [|apply IH].
+  destruct (N.eqb (t_signer t) (a_notary cfg)); [|apply IH].
+  destruct (negb (dpresent (dep_of st p))); [discriminate|].
+  match goal with |- context [if ?c then None else _] => destruct c; [discriminate|] end.
+  intros H. eapply GStep_trans; [apply dep_put_g|apply (IH _ _ H)].
+Qed.
+
+Lemma mint_each_g accts : forall st st' amount, mint_each cfg st accts amount = Some st' -> GStep st st'.
+Proof.
+  induction accts as [|a r IH]; intros st st' amount; simpl; [intros H; inv H; apply GStep_refl|].
+  destruct (gas_mint cfg st a amount false) as [st1|] eqn:E; [|discriminate].
+  intros H. eapply GStep_trans; [apply (gas_mint_g _ _ _ _ _ E)|apply (IH _ _ _ H)].
+Qed.
+
+Lemma notary_on_persist_g st txs st' : notary_on_persist cfg st txs = Some st' -> GStep st st'.
+Proof.
+  unfold notary_on_persist. destruct (charge_deposits cfg st txs) as [st1|] eqn:E; [|discriminate].
+  pose proof (charge_deposits_g _ _ _ E) as G1.
+  destruct (na_fees txs =? 0); [intros H; inv H; exact G1|].
+  destruct (notary_nodes st1); [intros H; inv H; exact G1|].
+  intros H. eapply GStep_trans; [exact G1|apply (mint_each_g _ _ _ _ H)].
+Qed.
+
+Lemma natives_on_persist_g st txs st' : natives_on_persist cfg st txs = Some st' -> GStep st st'.
+Proof.
+  unfold natives_on_persist. destruct (gas_on_persist cfg st txs) as [st1|] eqn:E; [|discriminate].
+  intros H. eapply GStep_trans; [apply (gas_on_persist_g _ _ _ E)|apply (notary_on_persist_g _ _ _ H)].
+Qed.
+
 Lemma reward_voters_t cm : forall st i vr, GStep st (reward_voters cfg st cm i vr) /\ same_inputs st (reward_voters cfg st cm i vr)
                                             /\ votes_changed (A (reward_voters cfg st cm i vr)) = votes_changed (A st).
 Proof.
@@ -463,7 +562,7 @@ Proof.
   set (h := height (A st) + 1).
   set (st0 := withA st (set_height (A st) h)).
   assert (C0 : CohTx st0).
-  { destruct C as [c1 c2 c3 c4 c5 c6]. constructor; simpl; auto.
+  { destruct C as [c1 c2 c3 c4 c5 c6 c7 c8]. constructor; simpl; auto.
     all: try (intros Hv; rewrite <- (c6 Hv); apply compute_committee_ext; reflexivity). }
   (* NEO.OnPersist *)
   set (stp := neo_on_persist cfg st0).
@@ -472,17 +571,17 @@ Proof.
   { unfold stp, neo_on_persist. simpl. fold h.
     destruct (h mod csize cfg =? 0) eqn:Er.
     - split; [|split; [|split]]; simpl; auto.
-      destruct C0 as [c1 c2 c3 c4 c5 c6]. simpl in *. constructor; simpl; auto.
+      destruct C0 as [c1 c2 c3 c4 c5 c6 c7 c8]. simpl in *. constructor; simpl; auto.
       intros _. assert (Hr : (height (A st) + 1) mod csize cfg = 0) by (fold h; lia).
       rewrite (Ce Hr). apply compute_committee_ext; reflexivity.
     - split; [|split; [|split]]; auto. intros _. simpl. apply Cm. fold h. lia. }
   destruct Cp as [Cp [Hh [HLp Hmid]]].
   pose proof (inv_wf _ _ I) as Hwf.
   assert (Hwfp : WF (L stp)) by (rewrite HLp; exact Hwf).
-  destruct (gas_on_persist cfg stp txs) as [st1|] eqn:E1; [|discriminate].
-  pose proof (gas_on_persist_g _ _ _ E1) as G1.
+  destruct (natives_on_persist cfg stp txs) as [st1|] eqn:E1; [|discriminate].
+  pose proof (natives_on_persist_g _ _ _ E1) as G1.
   pose proof (TxStep_of_G _ _ G1) as [h1 [m1 [n1 T1]]].
-  pose proof (e_wf _ _ _ _ _ _ _ (gas_on_persist_bal cfg CW _ _ _ Hwfp Hok E1) Hwfp) as Hwf1.
+  pose proof (e_wf _ _ _ _ _ _ _ (natives_on_persist_bal cfg CW _ _ _ Hwfp Hok E1) Hwfp) as Hwf1.
   pose proof (fold_exec_t txs st1 Hwf1 Hok) as [h2 [m2 [n2 T2]]].
   set (st2 := fold_left (exec_tx cfg) txs st1) in *.
   assert (C2 : CohTx st2) by auto.
@@ -510,7 +609,7 @@ Proof.
     assert (Hc : compute_committee cfg (withA st4 (set_ne_committee (A st4) (compute_committee cfg st4))) = compute_committee cfg st4)
       by (apply compute_committee_ext; reflexivity).
     constructor.
-    + destruct C4 as [c1 c2 c3 c4 c5 c6]. constructor; simpl; auto. all: try (intros _; exact Hc).
+    + destruct C4 as [c1 c2 c3 c4 c5 c6 c7 c8]. constructor; simpl; auto. all: try (intros _; exact Hc).
     + simpl. rewrite Hh4. intros X. lia.
     + simpl. intros _. symmetry. exact Hc.
   - constructor; [exact C4| |].
@@ -614,20 +713,24 @@ Proof. apply dedup_fix, dedup_adj. Qed.
 
 Theorem reinit_coh st : Coh st -> Coh (reinit cfg st).
 Proof.
-  intros [[c1 c2 c3 c4 c5 c6] cm ce]. unfold reinit.
+  intros [[c1 c2 c3 c4 c5 c6 c7 c8] cm ce]. unfold reinit.
   set (a1 := mkA (height (A st)) (committee (A st)) (committee (A st)) true (s_gpv (A st)) [] (s_gpb (A st)) (s_gpb (A st))
                  (s_regprice (A st)) (s_regprice (A st)) (s_blocked (A st)) (s_blocked (A st)) (p_store (A st)) (p_store (A st))).
-  assert (Hc : compute_committee cfg (mkSt (L st) a1) = compute_committee cfg st)
+  assert (Hc : compute_committee cfg (mkSt (L st) a1 (reinit_ext (X st))) = compute_committee cfg st)
     by (apply compute_committee_ext; simpl; auto).
   destruct ((height (A st) + 1) mod csize cfg =? 0) eqn:E.
   - constructor; simpl.
-    + constructor; simpl; auto; try discriminate. rewrite c4; symmetry; apply dedup_idem.
-    + intros X. lia.
+    + constructor; simpl; auto; try discriminate.
+      all: try (rewrite c4; symmetry; apply dedup_idem).
+      all: try (intros role; apply aget_reinit_ds).
+    + intros Hx. lia.
     + intros _. symmetry. apply compute_committee_ext; reflexivity.
   - constructor; simpl.
-    + constructor; simpl; auto; try discriminate. rewrite c4; symmetry; apply dedup_idem.
+    + constructor; simpl; auto; try discriminate.
+      all: try (rewrite c4; symmetry; apply dedup_idem).
+      all: try (intros role; apply aget_reinit_ds).
     + reflexivity.
-    + intros X. lia.
+    + intros Hx. lia.
 Qed.
 
 End GovProofs.
